@@ -10,7 +10,7 @@ from .tlaval import to_tla, norm
 import txdbus.bus
 from txdbus import router, message, objects, interface
 
-ACTIONS = {'Add': ('r',), 'Del': ('id',), 'Route': ('i', 'raising')}
+ACTIONS = {'Add': ('r',), 'Del': ('id',), 'Route': ('i', 'raising'), 'RouteRemoving': ('i', 'x')}
 OBS = ['invoked']
 NONE = '-'
 
@@ -137,6 +137,7 @@ class HistDriver:
         self.ids = {}        # model id -> real id
         self.counts = {}
         self.raising = False
+        self.self_remove = None
         self.n = 0
         self.last = {}
 
@@ -156,6 +157,11 @@ class HistDriver:
 
             def cb(m, mid=mid):
                 self.last[mid] = self.last.get(mid, 0) + 1
+                if self.self_remove == mid:
+                    # a one-shot subscriber: drops its own rule from inside the dispatch
+                    self.conn.router.delMatch(self.ids[mid])
+                    self.conn.match_rules.pop(self.ids[mid], None)
+                    del self.ids[mid]
                 if self.raising:
                     raise RuntimeError('callback %d raises' % mid)
             a, p = rule_args(r)
@@ -171,6 +177,13 @@ class HistDriver:
             call = self._reply()
             assert call.member == 'RemoveMatch'
             del self.ids[mid]
+        elif name == 'RouteRemoving':
+            i, x = args
+            self.self_remove = x
+            try:
+                self.conn.dataReceived(self.raw[i - 1])
+            finally:
+                self.self_remove = None
         elif name == 'Route':
             i, raising = args
             self.raising = raising == 'all'
@@ -299,7 +312,7 @@ def run(tier, seed):
     hraw = [reals[i].rawMessage for i in pick]
     name = 'MC_Router_hist'
     cfg = ('SPECIFICATION SpecHist\nCONSTANTS\n MaxRules = 2\n'
-           'INVARIANT FreshIds\nINVARIANT RemovedSilent\nPROPERTY Exact\nCHECK_DEADLOCK FALSE\n')
+           'INVARIANT FreshIds\nPROPERTY RemovedSilent\nPROPERTY Exact\nCHECK_DEADLOCK FALSE\n')
     res, g = tlc.dump_graph('Router', name + '.cfg', extra={'RouterData.tla': mc_module(name, hmsgs, pool), name + '.cfg': cfg},
                             timeout=900)
     chk.tlc_stats(res, 'Router history machine')
